@@ -53,10 +53,10 @@ CHECK = {
     "design_ref": "DESIGN.md section 3 'Engine runnersim' / C14, section 4 row 11",
     "targets": [{"name": "TestC14Stream", "build": 0,
                  "quick": {"cases": 30000, "shards": 4, "soft_s": 45},
-                 "thorough": {"cases": 400000, "shards": 16, "soft_s": 360}},
+                 "thorough": {"cases": 500000, "shards": 8, "soft_s": 360}},
                 {"name": "TestC14StopLaws", "build": 1,
                  "quick": {"cases": 50000, "shards": 1, "soft_s": 30},
-                 "thorough": {"cases": 1000000, "shards": 4, "soft_s": 300}},
+                 "thorough": {"cases": 1500000, "shards": 2, "soft_s": 300}},
                 {"name": "TestC14LlamaRunner", "build": 2,
                  "quick": {"cases": 10000, "shards": 4, "soft_s": 30},
                  "thorough": {"cases": 400000, "shards": 6, "soft_s": 320}}],
